@@ -13,6 +13,7 @@ import (
 	"time"
 
 	"github.com/rs/zerolog"
+	"github.com/rs/zerolog/diode"
 	"github.com/rs/zerolog/diode/verifh/evid"
 	"github.com/rs/zerolog/diode/verifh/gen"
 	"github.com/rs/zerolog/diode/verifh/rng"
@@ -169,7 +170,7 @@ func c06run(out *evid.Out, f *evid.Flags, run int) {
 	r := rng.New(f.Seed, 0xc06, uint64(run))
 	// destination kind cycles fastest; the other parameters are decoded from the remaining digits of the run
 	// number so that no two of them are tied together
-	const nDest = 10
+	const nDest = 11
 	destKind := run % nDest // 0 plain, 1 SyncWriter(LevelWriter), 2 Multi of two, 3 ConsoleWriter literal, 4 log.Logger global, 5 NewConsoleWriter(...), 6 SyncWriter(plain io.Writer), 7 ConsoleWriter{Out: SyncWriter(...)}: SyncWriter reached through its plain Write,
 	// 8 plain recorder, but every pair of events of a worker is a "request" logged through its own short-lived
 	// TriggerLevelWriter (hold up to warn, release at error) created with Output(): the writers' buffer pool is shared
@@ -258,8 +259,16 @@ func c06run(out *evid.Out, f *evid.Flags, run int) {
 			chains[w] = append(chains[w], chain6{id: fmt.Sprintf("w%d-%d", w, i), ev: ev, lvl: ev.Level, nestedErr: cr.Chance(1, 3), extras: w%4 != 0})
 		}
 	}
+	var closers []io.Closer
 	mkDest := func(delay int) (root io.Writer, recs []*cw6) {
 		switch destKind {
+		case 10:
+			// ConsoleWriter in front of a diode writer (ring larger than the run): the destination behind the diode is slow
+			// or blocked while the ConsoleWriter recycles its buffer for the next event
+			a := newW6("console-over-diode", true, delay, viol)
+			dw := diode.NewWriter(a, 8192, 0, func(missed int) { viol("diode-dropped", fmt.Sprintf("the diode reported %d dropped messages although its ring is larger than the run", missed)) })
+			closers = append(closers, dw)
+			return zerolog.ConsoleWriter{Out: dw, NoColor: true, TimeFormat: time.RFC3339, TimeLocation: time.UTC}, []*cw6{a}
 		case 1, 9:
 			a := newW6("sync", false, delay, viol)
 			return zerolog.SyncWriter(a), []*cw6{a}
@@ -372,7 +381,7 @@ func c06run(out *evid.Out, f *evid.Flags, run int) {
 		case 2:
 			capW[0], capW[1] = &capture6{m: map[string][]byte{}}, &capture6{m: map[string][]byte{}}
 			root = zerolog.MultiLevelWriter(capW[0], capW[1])
-		case 3, 5, 7:
+		case 3, 5, 7, 10:
 			capW[0] = &capture6{m: map[string][]byte{}, console: true}
 			root = zerolog.ConsoleWriter{Out: capW[0], NoColor: true, TimeFormat: time.RFC3339, TimeLocation: time.UTC}
 		default:
@@ -431,7 +440,7 @@ func c06run(out *evid.Out, f *evid.Flags, run int) {
 			runtime.Gosched()
 		}
 	}()
-	if destKind == 3 || destKind == 5 || destKind == 7 {
+	if destKind == 3 || destKind == 5 || destKind == 7 || destKind == 10 {
 		// next to the console destinations under test, another goroutine logs through a ConsoleWriter of its own whose
 		// destination refuses every line or takes only a few bytes of it: nothing of that may show anywhere else
 		twg.Add(1)
@@ -511,6 +520,9 @@ func c06run(out *evid.Out, f *evid.Flags, run int) {
 	wg.Wait()
 	close(stop)
 	twg.Wait()
+	for _, c := range closers {
+		c.Close() // drains the diode
+	}
 	// ---- accounting
 	total := 0
 	for k, rc := range recs2 {
